@@ -205,7 +205,7 @@ func runBatch(work string, tag int, jobs []*Job) map[int]Result {
 			hx.Fatal("%v", err)
 		}
 		ctx, cancel := context.WithTimeout(context.Background(), 10*time.Minute)
-		cmd := exec.CommandContext(ctx, self, "-child-jobs", jf, "-child-res", rf)
+		cmd := hx.Supervised(exec.CommandContext(ctx, self, "-child-jobs", jf, "-child-res", rf))
 		cmd.Env = append(os.Environ(), "GOMEMLIMIT=2GiB", "GOTRACEBACK=single")
 		if g := os.Getenv("HC02_CHILD_GOGC"); g != "" {
 			cmd.Env = append(cmd.Env, "GOGC="+g)
